@@ -203,6 +203,7 @@ func main() {
 		}
 	}
 	mergeBattery(r)
+	rangeBattery(r)
 	pinned(r)
 
 	r.Floor(st.queries > 0 && st.multiPlan*100 >= st.queries*60, fmt.Sprintf("fewer than 60%% of the queries were seen under >= 2 distinct plan fingerprints (%d of %d)", st.multiPlan, st.queries))
